@@ -4,8 +4,11 @@
 package iofault
 
 import (
+	"bufio"
+	"bytes"
 	"errors"
 	"io"
+	"strings"
 )
 
 // ErrInjected is the sentinel error of injected faults.
@@ -233,4 +236,92 @@ func (w *CountWriter) Write(p []byte) (int, error) {
 	w.Calls++
 	w.Bytes += len(p)
 	return len(p), nil
+}
+
+// ---------------------------------------------------------------------------
+// The same bytes behind readers of different concrete types: a library may
+// look at the extra interfaces a reader offers (io.ByteReader, io.Seeker,
+// io.ReaderAt, io.WriterTo, *bufio.Reader ...) and take another path.
+
+// ReaderKinds lists the kinds NewReader knows.
+var ReaderKinds = []string{"bytes.Reader", "strings.Reader", "bytes.Buffer", "bufio.Reader", "bufio.Reader(16)", "bare", "bytes.Reader@offset", "onebyte+bytereader"}
+
+type bare struct{ r io.Reader }
+
+func (b bare) Read(p []byte) (int, error) { return b.r.Read(p) }
+
+// byteAtATime offers Read (one byte per call) and ReadByte.
+type byteAtATime struct {
+	data []byte
+	pos  int
+}
+
+func (b *byteAtATime) Read(p []byte) (int, error) {
+	if b.pos >= len(b.data) {
+		return 0, io.EOF
+	}
+	if len(p) == 0 {
+		return 0, nil
+	}
+	p[0] = b.data[b.pos]
+	b.pos++
+	return 1, nil
+}
+
+func (b *byteAtATime) ReadByte() (byte, error) {
+	if b.pos >= len(b.data) {
+		return 0, io.EOF
+	}
+	b.pos++
+	return b.data[b.pos-1], nil
+}
+
+// NewReader returns a reader of the given kind over data.
+func NewReader(kind string, data []byte) io.Reader {
+	switch kind {
+	case "strings.Reader":
+		return strings.NewReader(string(data))
+	case "bytes.Buffer":
+		return bytes.NewBuffer(append([]byte{}, data...))
+	case "bufio.Reader":
+		return bufio.NewReader(bytes.NewReader(data))
+	case "bufio.Reader(16)":
+		return bufio.NewReaderSize(bare{bytes.NewReader(data)}, 16)
+	case "bare":
+		return bare{bytes.NewReader(data)}
+	case "bytes.Reader@offset":
+		// positioned behind 131 bytes of other data, the first of which is the
+		// PFB marker byte: io.ReaderAt / io.Seeker see the whole storage
+		pre := append([]byte{0x80, 0x01, 0x7d, 0, 0, 0}, bytes.Repeat([]byte("%other data\n"), 11)...)[:131]
+		r := bytes.NewReader(append(pre, data...))
+		r.Seek(int64(len(pre)), io.SeekStart)
+		return r
+	case "onebyte+bytereader":
+		return &byteAtATime{data: data}
+	}
+	return bytes.NewReader(data)
+}
+
+// WriterKinds lists the kinds NewWriter knows.
+var WriterKinds = []string{"bytes.Buffer", "bare", "bufio.Writer", "onebyte"}
+
+type bareWriter struct{ w io.Writer }
+
+func (b bareWriter) Write(p []byte) (int, error) { return b.w.Write(p) }
+
+// NewWriter returns a writer of the given kind that ends in buf, and a
+// function to call when writing is finished (flushes buffering kinds).
+func NewWriter(kind string, buf *bytes.Buffer) (io.Writer, func() error) {
+	switch kind {
+	case "bare":
+		return bareWriter{buf}, func() error { return nil }
+	case "bufio.Writer":
+		w := bufio.NewWriterSize(bareWriter{buf}, 64)
+		return w, w.Flush
+	case "onebyte":
+		// a writer without any extra method that is handed to the library
+		// behind one more wrapper
+		return bareWriter{bareWriter{buf}}, func() error { return nil }
+	}
+	return buf, func() error { return nil }
 }
